@@ -274,6 +274,147 @@ type c05Case struct {
 	Cells  map[string][]string `json:"-"`
 }
 
+// c05Reference evaluates the query once over all lines, independently of the
+// code under test (generickv format, queries without a set clause).  It
+// returns the expected CSV rows (unordered) or ok=false if the query is out of
+// the reference's scope.
+func c05Reference(q c05Query, lines []string) (rows [][]string, ok bool) {
+	if q.Format != "generickv" || q.Set != "" {
+		return nil, false
+	}
+	type agg struct {
+		count   map[string]float64
+		sum     map[string]float64
+		min     map[string]float64
+		max     map[string]float64
+		has     map[string]bool
+		last    map[string]string
+		samples int
+	}
+	groups := map[string]*agg{}
+	var order []string
+	groupFields := []string{}
+	if q.Group != "" {
+		groupFields = strings.Split(q.Group, ",")
+	} else {
+		first := q.Select[0]
+		if i := strings.Index(first, "("); i >= 0 {
+			first = first[i+1 : len(first)-1]
+		}
+		groupFields = []string{first}
+	}
+	for _, l := range lines {
+		fields := map[string]string{"$line": l}
+		for _, kv := range strings.Split(l, "|") {
+			if p := strings.SplitN(kv, "=", 2); len(p) == 2 {
+				fields[p[0]] = p[1]
+			}
+		}
+		switch q.Where {
+		case "":
+		case "v > 1":
+			f, err := strconv.ParseFloat(fields["v"], 64)
+			if _, has := fields["v"]; !has || err != nil || !(f > 1) {
+				continue
+			}
+		case `k eq "a"`:
+			if v, has := fields["k"]; !has || v != "a" {
+				continue
+			}
+		default:
+			return nil, false
+		}
+		var kp []string
+		for _, g := range groupFields {
+			kp = append(kp, fields[g])
+		}
+		key := strings.Join(kp, ",")
+		a := groups[key]
+		if a == nil {
+			a = &agg{count: map[string]float64{}, sum: map[string]float64{}, min: map[string]float64{}, max: map[string]float64{}, has: map[string]bool{}, last: map[string]string{}}
+			groups[key] = a
+			order = append(order, key)
+		}
+		added := false
+		for _, sel := range q.Select {
+			op, field := "last", sel
+			if i := strings.Index(sel, "("); i >= 0 {
+				op, field = sel[:i], sel[i+1:len(sel)-1]
+			}
+			val, has := fields[field]
+			if !has {
+				continue
+			}
+			switch op {
+			case "count":
+				a.count[sel]++
+				a.has[sel] = true
+				added = true
+			case "last":
+				a.last[sel] = val
+				a.has[sel] = true
+				added = true
+			case "len":
+				a.last[sel] = val
+				a.sum[sel] = float64(len(val))
+				a.has[sel] = true
+				added = true
+			default:
+				f, err := strconv.ParseFloat(val, 64)
+				if err != nil {
+					continue
+				}
+				switch op {
+				case "sum", "avg":
+					a.sum[sel] += f
+				case "min":
+					if !a.has[sel] || f < a.min[sel] {
+						a.min[sel] = f
+					}
+				case "max":
+					if !a.has[sel] || f > a.max[sel] {
+						a.max[sel] = f
+					}
+				}
+				a.has[sel] = true
+				added = true
+			}
+		}
+		if added {
+			a.samples++
+		}
+	}
+	for _, key := range order {
+		a := groups[key]
+		if a.samples == 0 {
+			continue // a group none of whose lines carries a selected field has no row (nothing to show)
+		}
+		var row []string
+		for _, sel := range q.Select {
+			op := "last"
+			if i := strings.Index(sel, "("); i >= 0 {
+				op = sel[:i]
+			}
+			switch op {
+			case "count":
+				row = append(row, fmt.Sprintf("%d", int(a.count[sel])))
+			case "sum", "len":
+				row = append(row, fmt.Sprintf("%f", a.sum[sel]))
+			case "min":
+				row = append(row, fmt.Sprintf("%f", a.min[sel]))
+			case "max":
+				row = append(row, fmt.Sprintf("%f", a.max[sel]))
+			case "avg":
+				row = append(row, fmt.Sprintf("%f", a.sum[sel]/float64(a.samples)))
+			default:
+				row = append(row, a.last[sel])
+			}
+		}
+		rows = append(rows, row)
+	}
+	return rows, true
+}
+
 func c05WithHeader(m map[c05Cell][]string) {
 	// every CSV file starts with its header line
 	hdr := "k,v,c"
@@ -300,6 +441,13 @@ func c05Check(c *Ctx, q c05Query, lines []string, shard int) {
 		c05WithHeader(central)
 	}
 	cRows, header, err1 := c05Pipeline(q.text(outfile, false), outfile, 1, central)
+	if ref, ok := c05Reference(q, lines); ok && err1 == nil {
+		// the central evaluation itself must be what the query denotes
+		if len(ref) != len(cRows) || !subMultiset(cRows, ref) {
+			c.Violation("central-evaluation-differs-from-the-query's-meaning", fmt.Sprintf("query %q over lines %q (one server, one file): result %v, the query denotes %v (header %v)",
+				q.text("o.csv", false), lines, cRows, ref, header), c05Case{Query: q.text("o.csv", false), Lines: lines})
+		}
+	}
 	total := 1
 	for range lines {
 		total *= len(c05Cells)
